@@ -91,7 +91,7 @@ def c02(hist):
         if sr.verdict != 'success':
             continue
         for mh in sr.finite:
-            fin = mh.finished()
+            fin = mh.ended()
             if len(mh.enters) != 1 or fin is None or fin[0] > sr.over[0]:
                 out.append(Violation(
                     'C02', 'success-with-unfinished-job', _site(sr),
@@ -632,7 +632,7 @@ def _abort_clauses(hist, sr, prop, t_trig, trig_seq, label, exact, out):
                 .format(mh.nid, sid, label, t_trig)))
             continue
         seq, t, kind = mh.exits[0]
-        if kind in ('ret', 'exc'):
+        if kind in ('ret', 'exc', 'scancel'):
             if t > t_trig:
                 out.append(Violation(
                     prop, 'waited-for-normal-completion',
@@ -649,7 +649,7 @@ def _abort_clauses(hist, sr, prop, t_trig, trig_seq, label, exact, out):
                     if h.exits and h.exits[0][1] < t_trig:
                         continue
                     if h.exits and h.exits[0][1] == t_trig and \
-                            h.exits[0][2] in ('ret', 'exc'):
+                            h.exits[0][2] in ('ret', 'exc', 'scancel'):
                         continue
                     seen = h.cancel_seen[0][1] if h.cancel_seen else None
                     if seen is None or seen > t_trig:
@@ -840,7 +840,7 @@ def c09(hist, stats=None):
         if sr.verdict == 'success' and sr.mh and not sr.degenerate and (
                 sr.fin is None or sr.fin[0] > sr.over[0]):
             left = [mh.nid for mh in sr.finite
-                    if mh.finished() is None or mh.finished()[0] > sr.over[0]]
+                    if mh.ended() is None or mh.ended()[0] > sr.over[0]]
             out.append(Violation(
                 'C09', 'run-ends-before-last-regular-job', _site(sr),
                 "{} ended (success) at t={} while its non-forever job(s) {} "
